@@ -330,7 +330,7 @@ func TestC04_Sweep(t *testing.T) {
 			lb, ub, _ := sbounds(p)
 			seen := map[int64]bool{}
 			for _, x := range []int64{lb, lb + 1, 2, 3, 16, 127, 128, 129, 255, 256, 257, 1023, 1024, 1025, 1100, 2047, 2048, 2049, 4097, ub} {
-				if x >= lb && x <= ub && x <= 4100 && !seen[x] {
+				if x >= lb && x <= ub && x <= map[bool]int64{true: 4100, false: 1100}[ev.Tier() == "thorough"] && !seen[x] {
 					seen[x] = true
 					ns = append(ns, x)
 				}
@@ -344,6 +344,52 @@ func TestC04_Sweep(t *testing.T) {
 			key, desc := locateDec(reflect.ValueOf(val), leaf.Tag, leaf.Type)
 			if key != "" {
 				vv.Key, vv.Err = key, fmt.Errorf("%s", desc)
+			}
+			cs := map[string]interface{}{"leaf": leaf, "n": n}
+			if !r.Each(t, cs, vv) {
+				return
+			}
+		}
+	}
+}
+
+// TestC04_FragmentSweep: every BIT STRING / OCTET STRING / PrintableString of the schema that can be that long, at the
+// lengths around the 16K fragments (complete fragments, one more unit, two fragments, a fragment of 64K): canonical
+// bytes from the independent encoder -> decode -> the value -> the same bytes.
+func TestC04_FragmentSweep(t *testing.T) {
+	r := ev.New(t, "C04", "TestC04_FragmentSweep")
+	defer r.Flush()
+	for li, leaf := range schemaLeaves() {
+		if li%ev.NShards() != ev.Shard() || (leaf.Kind != "bitstring" && leaf.Kind != "octetstring" && leaf.Kind != "string") {
+			continue
+		}
+		p := gen.ParseTag(leaf.Tag)
+		lb, ub, has := sbounds(p)
+		for _, n := range []int64{16384, 16385, 16424, 28729, 32768, 49152, 65536, 65537} {
+			if has && !p.SizeExt && (n < lb || n > ub) {
+				continue
+			}
+			leaf, n := leaf, n
+			val := rapid.Custom(func(rt *rapid.T) interface{} { return buildLeaf(rt, leaf, p, n) }).Example(int(ev.BaseSeed()%1000003) + li*977 + int(n))
+			rb, _, err := refper.Encode(val, leaf.Tag)
+			if err != nil {
+				continue
+			}
+			vv := ev.Verdict{NT: true, Hash: ev.HashJSON([]interface{}{"fragsweep", leaf.Kind, leaf.Tag, leaf.Type, n}), Classes: []string{"fragment-sweep:" + leaf.Kind}}
+			out := reflect.New(leaf.t)
+			in := append([]byte{}, rb...)
+			derr, site := ev.Guard(func() error { return aper.UnmarshalWithParams(in, out.Interface(), leaf.Tag) })
+			switch {
+			case site != "":
+				vv.Key, vv.Err = "frag:dec:panic:"+site, fmt.Errorf("%s %q of size %d: decoder panicked: %v", leaf.Kind, leaf.Tag, n, derr)
+			case derr != nil:
+				vv.Key, vv.Err = "frag:dec:canonical encoding rejected", fmt.Errorf("%s %q of size %d (%d octets): %v", leaf.Kind, leaf.Tag, n, len(rb), derr)
+			default:
+				if d := eqv(reflect.ValueOf(val), out.Elem(), leaf.Type); d != "" {
+					vv.Key, vv.Err = "frag:dec:value", fmt.Errorf("%s %q of size %d: decoded value differs: %s", leaf.Kind, leaf.Tag, n, d)
+				} else if b2, e2 := marshalAny(out.Elem().Interface(), leaf.Tag); e2 != nil || !bytes.Equal(b2, rb) {
+					vv.Key, vv.Err = "frag:reencode", fmt.Errorf("%s %q of size %d: re-encoding gives %d octets (err %v), canonical %d", leaf.Kind, leaf.Tag, n, len(b2), e2, len(rb))
+				}
 			}
 			cs := map[string]interface{}{"leaf": leaf, "n": n}
 			if !r.Each(t, cs, vv) {
